@@ -57,6 +57,60 @@ theorem u32_narrow (bs : Bytes) (v : Nat) (rest : Bytes) :
     readUlebU32 bs = .ok (v, rest) ↔ Leb.unsigned bs = .ok (v, rest) ∧ v < 2 ^ 32 :=
   readUlebU32_iff bs v rest
 
+/-! ## the 16-bit unsigned reader (`leb128::read::u16`, used for `DW_FORM_indirect` form codes) -/
+
+/-- exact value < 2^16, exact consumption of at most 3 bytes -/
+theorem u16leb_sound (bs : Bytes) (v : Nat) (rest : Bytes) (h : Leb.u16 bs = .ok (v, rest)) :
+    ∃ pre, bs = pre ++ rest ∧ IsLebEnc pre ∧ pre.length ≤ 3 ∧ v = ulebVal pre ∧ v < 2 ^ 16 :=
+  u16_sound bs v rest h
+
+theorem u16leb_complete (pre rest : Bytes) (henc : IsLebEnc pre) (hlen : pre.length ≤ 3)
+    (hfit : ulebVal pre < 2 ^ 16) : Leb.u16 (pre ++ rest) = .ok (ulebVal pre, rest) :=
+  u16_complete pre rest henc hlen hfit
+
+/-- values that do not fit 16 bits (or encodings longer than 3 bytes) are rejected, not truncated -/
+theorem u16leb_reject (pre rest : Bytes) (henc : IsLebEnc pre)
+    (hbad : 3 < pre.length ∨ 2 ^ 16 ≤ ulebVal pre) :
+    Leb.u16 (pre ++ rest) = .err .rBadUnsignedLeb128 :=
+  u16_reject pre rest henc hbad
+
+/-! ## signed LEB128 -/
+
+/-- **Exact value, exact consumption, never wrapped.** If the signed 64-bit reader accepts, the
+consumed prefix is exactly one LEB128 number of at most 10 bytes and the result is its two's
+complement value (sign-extended from bit 6 of the last group), which lies in the `i64` range. -/
+theorem sleb_sound (bs : Bytes) (v : Int) (rest : Bytes) (h : Leb.signed bs = .ok (v, rest)) :
+    ∃ pre, bs = pre ++ rest ∧ IsLebEnc pre ∧ pre.length ≤ 10 ∧ v = slebVal pre ∧
+      -(2 : Int) ^ 63 ≤ v ∧ v < 2 ^ 63 :=
+  signed_sound bs v rest h
+
+/-- every encoding of at most 10 bytes whose value is in the `i64` range is accepted -/
+theorem sleb_complete (pre rest : Bytes) (henc : IsLebEnc pre) (hlen : pre.length ≤ 10)
+    (hlo : -(2 : Int) ^ 63 ≤ slebVal pre) (hhi : slebVal pre < 2 ^ 63) :
+    Leb.signed (pre ++ rest) = .ok (slebVal pre, rest) :=
+  signed_complete pre rest henc (sfits_of_range pre henc hlen hlo hhi)
+
+/-- out-of-range values (and encodings longer than 10 bytes) are `BadSignedLeb128` -/
+theorem sleb_reject (pre rest : Bytes) (henc : IsLebEnc pre)
+    (hbad : 10 < pre.length ∨ slebVal pre < -(2 : Int) ^ 63 ∨ 2 ^ 63 ≤ slebVal pre) :
+    Leb.signed (pre ++ rest) = .err .rBadSignedLeb128 :=
+  signed_reject pre rest henc hbad
+
+/-- write then read is the identity for every `i64` -/
+theorem sleb_roundtrip (v : Int) (hlo : -(2 : Int) ^ 63 ≤ v) (hhi : v < 2 ^ 63) (rest : Bytes) :
+    Leb.signed (encodeS v ++ rest) = .ok (v, rest) :=
+  signed_roundtrip v hlo hhi rest
+
+/-- reported size = emitted size, between 1 and 10 bytes -/
+theorem sleb_size_eq (v : Int) (hlo : -(2 : Int) ^ 63 ≤ v) (hhi : v < 2 ^ 63) :
+    sizeS v = (encodeS v).length ∧ 1 ≤ sizeS v ∧ sizeS v ≤ 10 := by
+  obtain ⟨_, _, h10, h1, hsz⟩ := encodeS_spec v hlo hhi
+  omega
+
+example : Leb.signed [0x7f] = .ok (-1, []) := by decide
+example : slebVal [0x80, 0x7f] = -128 ∧ IsLebEnc [0x80, 0x7f] := by decide
+example : encodeS (-12345) = [0xc7, 0x9f, 0x7f] := by decide
+
 /-! ## fixed-width integers, either byte order -/
 
 /-- a successful `n`-byte read consumes exactly `n` bytes and returns their positional value -/
